@@ -587,7 +587,7 @@ func (sc *Scenario) timed() bool     { return sc.generator() || sc.Stage == "thr
 // run executes the scenario; it must be called inside a bubble.
 func run(sc *Scenario, diag bool) (res Result) {
 	e := &env{sc: sc, calls: map[int]int{}, errs: map[int]*stageErr{}, envStop: make(chan struct{}), start: time.Now(), gated: sc.Gated}
-	e.ctx, e.cancel = context.WithCancel(context.Background())
+	e.ctx, e.cancel = newCtx(sc)
 	if sc.PreCancel {
 		e.cancelled = true
 		e.cancel()
